@@ -11,6 +11,30 @@ def hook_commits():
         return []
 
 CHECKS = {
+ "C01": dict(cat="exploration",
+   text="Model-free legality monitor over real executions: a shadow configuration built from the tracer's ENTER/EXIT events is compared with samples of the real configuration (end of every microstep, every idle point, inside every probe action, reported final configuration) and every quiescent sample is checked against the five legality clauses; ~10^4 generated documents x guided event paths per quick run in three data models plus a fixed core corpus.",
+   note="Trusted: the recording tracer / mark action (harness/src/rec.rs), the legality predicate (legality.rs) and the generator's notion of a conformant document. Samples mid-microstep are only compared, not required to be legal.",
+   tech="runtime invariant monitor on sampled configurations + shadow state from trace events", ref="DESIGN.md §5 C01"),
+ "C02": dict(cat="exploration",
+   text="The real interpreter's trace (transition set from the enabledTransitions trace, EXIT/ENTER events, probe marks, dequeued events) is compared line by line with an independent reference interpreter of the W3C algorithm; for small documents the reachable graph is enumerated breadth-first and every (state,event) edge is executed, larger ones by guided walks; first path of each document is run twice for determinism.",
+   note="Trusted: harness/src/refsim.rs (written from Appendix D with different data structures; common-mode risk reduced by the model-free monitors of C01/C03/C06/C07 running on the same runs).",
+   tech="online-recorded trace vs executable reference model (differential), complete reachable-graph edge coverage per small document", ref="DESIGN.md §5 C02"),
+ "C03": dict(cat="exploration",
+   text="Model-free queue-discipline monitor (every announced <raise>/internal <send> consumed exactly once, in order, before the next external event; external events FIFO exactly once) on runs fed per macrostep and with all events pre-queued behind a gate, plus equality with the reference interpreter (decides 'eventless before internal' and 'a non-matching event changes nothing').",
+   note="Trusted: rec.rs gate/mark probes, monitors.rs::queue_discipline, refsim.rs. The null data model executes no content and is therefore only covered by reference equality in C02.",
+   tech="offline checker over recorded event log (exactly-once, FIFO, ordering) + reference model", ref="DESIGN.md §5 C03"),
+ "C06": dict(cat="exploration",
+   text="History snapshot monitor that recomputes from the trace what each exit must record and checks what a later transition to the history state re-enters, and that default content runs exactly once as part of entering the parent and only when nothing was recorded; reachable-graph paths and long leave/re-enter walks; plus reference equality.",
+   note="Trusted: monitors.rs::history and refsim.rs. For deep history below parallel states only inclusion of the recorded states is checked model-free; the exact entry set is decided by reference equality.",
+   tech="offline trace checker (snapshot at exit vs restore at entry) + reference model", ref="DESIGN.md §5 C06"),
+ "C07": dict(cat="exploration",
+   text="Done-event accounting per microstep from the trace (done.state.<parent> once per entered final child; done.state.<parallel> exactly when all regions are final), termination monitor (nothing but onexit content after a top-level final or the cancel event, each active state's onexit once in exit order, final configuration reported), with events still queued at termination; plus reference equality.",
+   note="Trusted: monitors.rs::done_and_termination, refsim.rs. done.invoke to an invoking parent is covered by C14's scenarios.",
+   tech="offline trace checker (counting / ordering predicates) + reference model", ref="DESIGN.md §5 C07"),
+ "C08": dict(cat="exploration",
+   text="Generated blocks (nested if/elseif/else, foreach, assign, raise, log, script, send; failing elements at every position) in all five host positions run in rfsm-expression and ecmascript; the observed sequence of probe marks and events is compared with a reference evaluator implementing the Recommendation's error semantics.",
+   note="Trusted: refsim.rs executable-content evaluator. The ecmascript data model runs in its strict mode (as the repository's W3C test configuration does). <finalize> bodies are exercised by C14.",
+   tech="differential runtime oracle over probe marks (reference evaluator of the content sub-language)", ref="DESIGN.md §5 C08"),
  "C10": dict(cat="exploration",
    text="Differential run of the real lexer/parser/evaluator against an independent reference evaluator written from the README and the property statement: every operator sequence up to length 3 (thorough 4) with typed sampled operands, random trees, assignments; each also in whitespace / parenthesis / ':' variants and three times through the data model's compilation cache. Sampling over operands, so this is exploration, not proof.",
    note="Trusted: harness/src/expr_ref.rs (reference semantics, precedence table, renderer). Operand-type combinations whose meaning the README does not fix are not generated (no verdict).",
